@@ -224,6 +224,18 @@ theorem globalFilter_spec (kinds : List (String × List String)) (main before af
     · cases ha
     · simp only [Option.some.injEq] at ha; subst ha; exact jumpsOK_of_validate hg.2
 
+/-- **The `globalfilter` judge's executable spec accepts the model** (`Driver/C02.lean`, mode `gf`: accept /
+reject is judged with `Spec.valid` on both parts, the runs with `Spec.runBA … (gfPipe before) (gfPipe after)`):
+the model's validation decision is the spec's on every pair of parts, and for validated specs the spec's run
+is defined and equals the model's `gfHandle`, for every result assignment. -/
+theorem globalFilter_judge_accepts_model (kinds : List (String × List String)) (main before after : PSpec)
+    (res : Nat → String) :
+    gfValidate kinds before after = (Spec.valid kinds before && Spec.valid kinds after) ∧
+    (validate kinds main = true → gfValidate kinds before after = true →
+      Spec.runBA res (mkPipe main) (gfPipe before) (gfPipe after) = some (gfHandle res (mkPipe main) before after)) := by
+  refine ⟨by unfold gfValidate; rw [validate_eq_valid, validate_eq_valid], fun hm hg => ?_⟩
+  exact globalFilter_spec kinds main before after hm hg res
+
 /-- **An END anywhere stops all three**: once a flow ended the pipeline, the later flows do not run. -/
 theorem end_stops_all (res : Nat → String) (p : Pipe) (b : Pipe) (after : Option Pipe)
     (he : (doHandle b.kind res b.flow []).2.2 = true) :
